@@ -5,7 +5,7 @@ from .. import oracle as o
 
 ID = 'C01'
 RULE = ('one record per (function, parameters, message); exhaustive lengths 0..=4*block+1 per fixed variant, BLAKE2 (outlen,keylen) '
-        'grids, sampled lengths up to 64 KiB (and huge periodic messages in thorough); a case is non-trivial and distinct by '
+        'grids, sampled lengths up to 64 KiB (and huge periodic messages in thorough), every variant with the message at byte offsets 1..15, 17, 31, 33 of an aligned buffer; a case is non-trivial and distinct by '
         '(entry point, variant, outlen, keylen, message length, content class)')
 ASSUMPTIONS = ['hashlib (OpenSSL / CPython _blake2) is correct for SHA-1/2/3, RIPEMD-160, BLAKE2',
                'pure-Python Keccak model pinned by SHA-3 equivalence and Keccak KATs (selftest)']
@@ -44,6 +44,13 @@ def gen(tier, seed):
                 n = (n // bs) * bs + rng.choice([-17, -9, -8, -1, 0, 1, bs - 9, bs - 1]) % bs
             yield 'hash %s %s #rnd' % (v, rng.data(n))
         yield 'hash %s %s #rnd' % (v, rng.data(1 << 20))
+    # the message starts at every byte offset 1..15 (and 17, 31, 33) of a 64-byte aligned buffer: a block function that reads the
+    # caller's memory in place must not depend on its alignment
+    for v in FIXED:
+        bs = o.BLOCK[v]
+        for off in list(range(1, 16)) + [17, 31, 33]:
+            for n in (bs, 2 * bs + 5, 3 * bs + rng.rng(0, bs)):
+                yield 'hashoff %s %d %s #offset/%d' % (v, off, rng.data(n), off % 8)
     # BLAKE2 parameter grids: dynamic contexts, every (outlen, keylen)
     for name, maxo, maxk, bs in (('b2b', 64, 64, 128), ('b2s', 32, 32, 64)):
         lens = [0, 1, bs - 1, bs, bs + 1, 2 * bs, 2 * bs + 1]
@@ -84,6 +91,8 @@ def expected(f):
     op = f[0]
     if op == 'hash':
         return o.HASHES[f[1]](expand(f[2]))
+    if op == 'hashoff':
+        return o.HASHES[f[1]](expand(f[3]))
     if op in ('b2b', 'b2blegacy'):
         return o.blake2b(int(f[1]), expand(f[2]), expand(f[3]))
     if op in ('b2s', 'b2slegacy'):
@@ -99,7 +108,7 @@ def check(line, toks):
     f, cls = parse(line)
     exp = expected(f).hex()
     if len(toks) != 1 or toks[0] != exp:
-        variant = f[1] if f[0] == 'hash' else f[0]
+        variant = f[1] if f[0] in ('hash', 'hashoff') else f[0]
         return [('C01:%s:digest-mismatch' % variant, 'expected %s got %s' % (exp, ' '.join(toks)[:200]))]
     return []
 
@@ -108,11 +117,15 @@ def classify(line):
     f, cls = parse(line)
     if f[0] == 'hash':
         return (f[0], f[1], spec_len(f[2]), cls)
+    if f[0] == 'hashoff':
+        return (f[0], f[1], f[2], spec_len(f[3]), cls)
     return (f[0], f[1], spec_len(f[2]), spec_len(f[3]), cls)
 
 
 def coverage(line, toks):
     f, cls = parse(line)
+    if f[0] == 'hashoff':
+        return ['%s:input-at-offset' % f[1]]
     if f[0] == 'hash':
         bs = o.BLOCK[f[1]]
         n = spec_len(f[2])
